@@ -16,14 +16,23 @@ EXPLANATION = (
     "integer add + mask, up-scale). Theorems on the rounding core: result is a multiple of 2^k, one of the two "
     "enclosing multiples, nearest with ties toward zero, idempotent, monotone, sign carried; end to end on VALUES for "
     "E<=7 and in-range normal inputs (closed form of the four stages, |result - x| <= half the format spacing, result is "
-    "a format value, no grid point of any binade is closer). The check compares the "
+    "a format value, no grid point of any binade is closer; representable inputs fixed, result representable and in "
+    "range, idempotent, saturation at +-max incl. infinity; below the format's normal range: closed form with the "
+    "float32-subnormal rounding of the division, |result - x| <= (1/2 + 2^(M-23)/2) of the subnormal spacing, result "
+    "is a subnormal format value or the smallest normal, representable inputs keep their value; monotone on the WHOLE "
+    "magnitude range incl. both boundaries; for E=8 on normal inputs below 2^126 quantise IS the integer core on the "
+    "input's own pattern, hence all core laws and the half-spacing bound). The check compares the "
     "implementation's output bit patterns with the model's for every generated input (correspondence, exact) and "
     "evaluates the value-level property with an exact oracle (float32 values and format values are exact in float64)."
 )
 ASSUMPTIONS = ["NaN inputs are outside the domain; for E=8 inputs satisfy |x| < 2^126",
                "float64 arithmetic on float32 values / format values / their differences is exact (<= 53 significant bits)"]
 THMS = ["USProofs.C13.round_core_multiple", "USProofs.C13.round_core_neighbour", "USProofs.C13.round_core_nearest",
-        "USProofs.C13.round_core_idempotent", "USProofs.C13.round_core_monotone"]
+        "USProofs.C13.round_core_idempotent", "USProofs.C13.round_core_monotone",
+        "USProofs.C13.quantise_value_error", "USProofs.C13.quantise_format_value", "USProofs.C13.quantise_fixes_representable",
+        "USProofs.C13.quantise_idempotent", "USProofs.C13.quantise_saturates", "USProofs.C13.quantise_sub_value_error",
+        "USProofs.C13.quantise_sub_format_value", "USProofs.C13.quantise_monotone_all", "USProofs.C13.quantMag_E8_eq",
+        "USProofs.C13.quantise_E8_value_error"]
 
 
 def fmt_consts(E: int, M: int) -> Dict[str, float]:
@@ -243,7 +252,7 @@ def run(ctx: Ctx) -> None:
     ctx.samples = [sample_bits] if sample_bits else []
 
     # ---- tensors of rank 0-3, empty, non-contiguous, four dtypes
-    for (E, M) in [(4, 3), (5, 2), (2, 1), (8, 7), (3, 0), (5, 10), (8, 23)] + [rng.choice(formats) for _ in range(6 if quick else 60)]:
+    for (E, M) in [(4, 3), (5, 2), (2, 1), (8, 7), (3, 0), (5, 10), (8, 23), (4, 7), (3, 7), (5, 7), (4, 10), (3, 10)] + [rng.choice(formats) for _ in range(6 if quick else 60)]:
         f = FPFormat(E, M, "nearest")
         c = fmt_consts(E, M)
         for dt in (torch.float32, torch.float64, torch.bfloat16, torch.float16):
@@ -256,7 +265,10 @@ def run(ctx: Ctx) -> None:
             for shape in shapes:
                 key = {"E": E, "M": M, "dtype": str(dt), "shape": list(shape)}
                 ctx.count(key, bucket="tensors")
-                x = (torch.randn(shape, dtype=torch.float64) * scale).to(dt)
+                x = torch.randn(shape, dtype=torch.float64) * scale
+                # a good part of the entries lies below the format's smallest normal value (its subnormal range)
+                x = torch.where(torch.rand(shape, dtype=torch.float64) < 0.4,
+                                torch.randn(shape, dtype=torch.float64) * c["min_normal"] * 1.5, x).to(dt)
                 variants = [("contiguous", x)]
                 if len(shape) >= 2 and x.numel():
                     variants.append(("transposed", x.transpose(0, -1)))
